@@ -34,7 +34,12 @@ func (f *funcID) Register(p *Process) (fid uint32) {
 
 	f.list[fid] = p
 	p.Id = fid
-	p.Variables.process = p
+	if p.Variables.process == nil {
+		// a table shared by every process of a scope keeps pointing at the
+		// process it was created for: repointing it at each sibling as it
+		// registers is a data race with the siblings already reading it
+		p.Variables.process = p
+	}
 
 	f.mutex.Unlock()
 	verifhook.Event("fid.register", fid)
